@@ -24,6 +24,6 @@ for d in sorted(glob.glob('/verif/seeded/*')):
         t=open(d+'/confirm.txt').read()
         conf=('tests ok' if 'TESTS: ok' in t else 'TESTS?')+', '+('demo ok' if re.search(r'with patch exit=[1-9].*without patch exit=0',t) else 'demo: see confirm.txt')
     rows.append((name,files,summ,'; '.join(dict.fromkeys(det)) or '**not caught**',conf))
-print('| seed | file | change | caught by (quick tier, first signature) | confirmed |')
+print('| seed | file | change | caught by: check (seed of the quick tier, or thorough4000 = first 4000 cases of the thorough tier at seed 1): first signature | confirmed |')
 print('|------|------|--------|------------------------------------------|-----------|')
 for r in rows: print('| '+' | '.join(x.replace('|','/') for x in r)+' |')
